@@ -9,6 +9,7 @@ claimed = {
  "C04": ("histories without the audit-side well-formedness assumptions (empty/unset session, non-LOGIN openers, foreign PIDs, events after the end); nothing emitted unless correlated, checked after every step", "§4 C04"),
  "C05": ("accepted key/cert/password lines with symbolic fields and PID digits, symbolic write fault, four correlator/cancellation modes with every interleaving of processor, receiver and canceller", "§4 C05"),
  "C06": ("21 message forms as templates over one symbolic line (symbolic field boundaries and contents); Go's regexp encoded from the real syntax.Prog; one obligation per form and field", "§4 C06"),
+ "C10": ("one SSH session (accepted login line + LOGIN, USER_START, CRED_DISP records) through the real cmd.RunNamedPipe with both pipes, the login line at every position relative to the records and both write groupings; every event reaches the shared writer exactly once and the UserLogin precedes every UserAction carrying its identity, in every explored schedule; torn lines at file level are an assumption (one Write per Encode, O_APPEND)", "§4 C10, §10.4"),
  "C11": ("fully symbolic line and 14 keyword+symbolic-tail lines with a symbolic PID token; no panic, nil error, at most one event, logins only with success, every extracted value a window of the input or a placeholder", "§4 C11"),
  "C12": ("real bufio over a FIFO model: stream of T symbolic bytes, every partition into writes, callback error at every record index; callbacks equal the terminated records", "§4 C12"),
  "C14": ("symbolic coalesced event (result string, timestamp, summary, 0..2 args) rendered through the real tracker; field-by-field equality and non-aliasing of the stored login", "§4 C14"),
@@ -25,7 +26,7 @@ claimed = {
  "C20": ("sortLogNamesOldToNew on symbolic rotation suffixes; rotatingFile.read on an in-memory file system under append/fragment/newline/rotate/truncate histories with symbolic bytes", "§4 C20"),
 }
 pending = {}
-for p in ["C10"]:
+for p in []:
     pending[p] = "torn/interleaved output lines depend on encoding/json issuing one Write per Encode and on O_APPEND atomicity in the kernel, neither of which the engine executes; the assembled-pipeline ordering needs aucoalesce (reflection-built tables) inside the engine; the processor-level half (event written before the login is handed over, one write per event) is decided under C05"
 checks = []
 for pid in sorted(claimed):
